@@ -47,12 +47,12 @@ LEVEL_NOTE = ('Trusted: Coq kernel, table extractor, extraction + OCaml driver, 
               'Python code is modelled not verified.  NOT MODELLED (direct oracle on the implementation only): the 31 value classes defined outside '
               'src/registry.py and src/conf.py (src/log.py, src/callbacks.py, src/ircdb.py, plugins/*) -- they are in the regenerated inventory and in the '
               'reject-atomic table, but their set/__str__ are not modelled class by class; Float family, Json, Regexp, Servers, Databases, Banmask, HttpProxy, '
-              'SocketTimeout; textwrap.wrap (chunks are an input).  NOT COVERED: user-specific values (conf.registerUserValue / userdata.conf; finding C15.F32 is '
-              'checked by one probe, the second loop of Group.setName is not modelled); what registry.close() swallows when the lazy reload of a hand-edited, '
+              'SocketTimeout; textwrap.wrap (chunks are an input).  NOT COVERED: user-specific values (conf.registerUserValue / userdata.conf) are modelled at the level of the cache scan only and '
+              'checked by four probes (the second loop of Group.setName is not modelled); what registry.close() swallows when the lazy reload of a hand-edited, '
               'invalid value raises while saving (the harness only checks that nothing is swallowed for files the bot wrote); values written through the plugin '
               'API under a non-channel name or for a network that is not connected are saved but invisible to reads (mirrored, not judged); rfc1459 case folding '
               'of channel names ([]\\~ vs {}|^: the registry folds with str.lower only); the locale encoding of open() vs the UTF-8 writer for non-ASCII help '
-              'comments; Windows (os.linesep in wrapped values; finding C15.F33 is checked with os.name patched); reload histories are generated for scalar classes only.')
+              'comments; Windows (os.linesep in wrapped values; the repaired C15.F33 is checked with os.name patched); reload histories are generated for scalar classes only.')
 TECHNIQUE = 'Coq proof (induction over strings / operation histories) + regenerated tables and class inventory + extracted-model differential correspondence'
 EXPLANATION = 'C15: registry save/reload, reject-atomic and specific-value model of src/registry.py; theorems in coq/C15/Props.v'
 
@@ -340,9 +340,7 @@ def cls_comma_set(inp):
             and any(x != x.strip() for x in inp['value'][1]))
 
 
-CLASSES = {'comma_set_edge_blank': cls_comma_set,
-           'windows_bool_not_atomic': lambda inp: inp.get('op') == 'winbool',
-           'user_value_not_reinstantiated': lambda inp: inp.get('op') == 'uservalue'}
+CLASSES = {'comma_set_edge_blank': cls_comma_set}
 
 # witnesses of repaired defects (findings/C15.json "fixed"): run first on every check, nothing attributes them to a finding
 CORPUS_FIXED = [
@@ -1558,11 +1556,15 @@ def check_winbool(ctx, replaying=False):
         ctx.fail(inp, 'with os.name == "nt": set("True") is rejected but the value is now %r' % (inst.value,))
 
 
-def check_uservalue(ctx):
+def check_uservalue(ctx, inp=None):
     """a user-specific value (PluginMixin.setUserValue -> userdata.conf) across a restart and an untouched save"""
     m = mods()
     r, conf = m.registry, m.conf
-    inp = {'op': 'uservalue', 'id': '42', 'value': 'hello user 42'}
+    if inp is None:
+        for inp_ in ({'op': 'uservalue', 'id': '42', 'value': 'hello user 42'}, {'op': 'uservalue', 'id': '7', 'value': '"'},
+                     {'op': 'uservalue', 'id': '1234567', 'value': 'a: b'}, {'op': 'uservalue', 'id': '0', 'value': ''}):
+            check_uservalue(ctx, inp_)
+        return
     ctx.case('user-value', inp)
     with keep_cache():
         r._cache.data.clear()
@@ -1934,7 +1936,7 @@ def replay(ctx, inp):
     elif op == 'winbool':
         check_winbool(sub)
     elif op == 'uservalue':
-        check_uservalue(sub)
+        check_uservalue(sub, inp)
     elif op == 'api':
         check_api(sub, inp, None)
     elif op == 'tgens':
